@@ -48,8 +48,15 @@ CONFIGS = {
     "reuse": dict(reuse_preconditioner=True),
     "fd": dict(compression_rank=1, block_size=8, frequent_directions=True, reuse_preconditioner=True),
     "fd-no-reuse": dict(compression_rank=1, block_size=8, frequent_directions=True),
+    "fd-metrics-only": dict(compression_rank=1, block_size=8, frequent_directions=True, reuse_preconditioner=True, generate_fd_metrics=True,
+                            generate_training_metrics=False),
     "fd-metrics": dict(compression_rank=1, block_size=8, frequent_directions=True, reuse_preconditioner=True, generate_fd_metrics=True,
                        skip_preconditioning_rank_lt=2),
+    "graft-ADAGRAD": dict(graft_type=ds.GraftingType.ADAGRAD),
+    "graft-ADAGRAD_NORMALIZED": dict(graft_type=ds.GraftingType.ADAGRAD_NORMALIZED),
+    "graft-RMSPROP_NORMALIZED": dict(graft_type=ds.GraftingType.RMSPROP_NORMALIZED),
+    "graft-SQRT_N": dict(graft_type=ds.GraftingType.SQRT_N),
+    "graft-NONE": dict(graft_type=ds.GraftingType.NONE),
     "fd-avg-grad": dict(compression_rank=1, block_size=8, frequent_directions=True, reuse_preconditioner=True, average_grad=True,
                         skip_preconditioning_rank_lt=2),
 }
